@@ -91,8 +91,8 @@ DecDigits(n) == IF n < 10 THEN <<48 + n>> ELSE DecDigits(n \div 10) \o <<48 + (n
 HexDigit(d, upper) == IF d < 10 THEN 48 + d ELSE (IF upper THEN 55 ELSE 87) + d
 RECURSIVE HexDigits(_, _)
 HexDigits(n, upper) == IF n < 16 THEN <<HexDigit(n, upper)>> ELSE HexDigits(n \div 16, upper) \o <<HexDigit(n % 16, upper)>>
-(* style = [hex, upper, ws]: ws 0 minimal, 1 double spaces and padding inside parentheses, 2 tabs/newlines *)
-Gap(style) == CASE style.ws = 0 -> <<32>> [] style.ws = 1 -> <<32, 32>> [] OTHER -> <<10, 9>>
+(* style = [hex, upper, ws]: ws 0 minimal, 1 double spaces and padding inside parentheses, 2 newline + tab, 3 vertical tab + form feed + carriage return *)
+Gap(style) == CASE style.ws = 0 -> <<32>> [] style.ws = 1 -> <<32, 32>> [] style.ws = 2 -> <<10, 9>> [] OTHER -> <<11, 12, 13>>
 Pad(style) == IF style.ws = 0 THEN <<>> ELSE Gap(style)
 RECURSIVE Render(_, _), RenderItems(_, _)
 Render(t, style) == CASE t[1] = 1 -> t[2]
@@ -114,7 +114,7 @@ Empty == <<3, <<>>>>
 DeepTrees == {Nest(k, t) : k \in 1..6, t \in Atoms \cup {Empty}}
              \cup {<<3, <<Nest(k, Empty), Nest(j, t)>>>> : k \in 0..4, j \in 0..4, t \in {Empty, <<1, <<97>>>>}}
              \cup {<<3, <<<<1, <<97>>>>, Nest(k, Empty), <<2, 10>>, Nest(j, Empty)>>>> : k \in 0..3, j \in 0..3}
-Styles == {[hex |-> h, upper |-> u, ws |-> w] : h \in BOOLEAN, u \in BOOLEAN, w \in {0, 1, 2}}
+Styles == {[hex |-> h, upper |-> u, ws |-> w] : h \in BOOLEAN, u \in BOOLEAN, w \in {0, 1, 2, 3}}
 Alphabet == <<40, 41, 32, 97, 49, 35, 120, 70, 45, 123>>                                        \* ( ) space a 1 # x F - {
 
 (* trees of the rendering family carry small integers; the reader returns them as four words *)
@@ -128,9 +128,9 @@ ParseInvertsRender(t, style) ==
     IN r.ok /\ r.tree = Norm(t) /\ r.pos = Len(s) + 1
        /\ Parse(s \o <<32, 97>>).pos = Len(s) + 1                      \* position just past the expression, trailing text untouched
 
-Init == /\ phase \in {<<"b", "tree", k>> : k \in 0..11} \cup {<<"b", "str", k>> : k \in 1..Len(Alphabet)} \cup {<<"b", "str", 0>>}
+Init == /\ phase \in {<<"b", "tree", k>> : k \in 0..15} \cup {<<"b", "str", k>> : k \in 1..Len(Alphabet)} \cup {<<"b", "str", 0>>}
         /\ ev = Boot
-StyleNo(k) == CHOOSE st \in Styles : (IF st.hex THEN 6 ELSE 0) + (IF st.upper THEN 3 ELSE 0) + st.ws = k
+StyleNo(k) == CHOOSE st \in Styles : (IF st.hex THEN 8 ELSE 0) + (IF st.upper THEN 4 ELSE 0) + st.ws = k
 Next == /\ phase[1] = "b" /\ ev' = Boot
         /\ \/ phase[2] = "tree" /\ \E t \in Trees(MaxDepth) \cup DeepTrees : phase' = <<"c", "tree", t, StyleNo(phase[3])>>
            \/ phase[2] = "str" /\ phase[3] = 0 /\ phase' = <<"c", "str", <<>>>>
